@@ -27,7 +27,7 @@ FRAGMENTS = [
     # reStructuredText
     ':param x: the x', ':type x: int', ':returns: r', ':rtype: int', ':raises ValueError: v', ':ivar v: doc', ':param: noarg', ':unknown field: x',
     '`ref`', '``lit``', '*em*', '**strong**', '*unbalanced', '``unbalanced', '`unb', '|subst|', 'foot [1]_', 'anon__', 'target_', '_`inline target`',
-    '.. note:: n', '.. warning::\n   w', '.. code:: python\n\n   x = 1', '.. unknown:: x', '.. image:: x.png', '.. raw:: html\n\n   <b>x</b>',
+    '`anon ref`__', '`anon ref`__\n\n:param x: the x', 'See `text`__ here.\n\n- item', '.. code::', '.. code:: python', '.. note:: n', '.. warning::\n   w', '.. code:: python\n\n   x = 1', '.. unknown:: x', '.. image:: x.png', '.. raw:: html\n\n   <b>x</b>',
     '.. include:: /nonexistent', '.. math:: x^2', '.. |s| replace:: t', '.. _t: http://x', '.. [1] foot', '..', '.. versionadded:: 1.0',
     '.. deprecated:: 2', '.. python::\n\n   x = 1', '.. contents::', '.. csv-table::\n   :widths: x\n\n   a,b', '.. table::',
     'Head\n====\n\nSub\n---\n\nSubsub\n~~~~', 'Head\n==', '====\nOver\n====', '=====  =====\nA      B\n=====  =====\n1      2\n=====  =====',
@@ -62,7 +62,9 @@ def _source(doc, fmt_line):
             '    cvar = 1', '    ' + lit,
             '    def __init__(self):', '        self.ivar = 1', '        ' + lit,
             'def func(x: int, *args, **kw) -> str:', '    ' + lit,
-            'mvar = 1', lit]
+            'mvar = 1', lit,
+            'class Base:', '    def inh(self):', '        ' + lit,
+            'class Derived(Base):', '    def inh(self):', '        pass']
     return '\n'.join(src) + '\n'
 
 
@@ -196,6 +198,16 @@ def _check1(case):
             if got.get(n) != base.get(n):
                 fails.append({'observed': f'{n} renders differently next to this docstring: {got.get(n)!r:.150} vs {base.get(n)!r:.150}',
                               'required': 'no other object is affected', 'class': 'other-affected'})
+    # an inherited docstring is rendered (and falls back, and is reported) in the context of the object that holds it
+    b, dd = system.allobjects.get('m.Base.inh'), system.allobjects.get('m.Derived.inh')
+    if b is not None and dd is not None and b.docstring:
+        strip = lambda h: re.sub(r'href="[^"]*"', 'href', h)     # noqa  (same-page links are spelled differently on the two pages)
+        if strip(got['m.Derived.inh'][0]) != strip(got['m.Base.inh'][0]):
+            fails.append({'observed': f'the inherited docstring renders differently on the overriding method: {got["m.Derived.inh"][0]!r:.160} vs {got["m.Base.inh"][0]!r:.160}',
+                          'required': 'the complete original text is still shown', 'class': 'inherited-differs'})
+        if 'm.Derived.inh' in system.parse_errors['docstring']:
+            fails.append({'observed': 'a problem of the docstring of m.Base.inh is reported against m.Derived.inh, which only inherits it',
+                          'required': 'the problem is reported against that object', 'class': 'inherited-report'})
     effective = case.get('module_docformat') or case['docformat']
     if case['docformat'] == 'plaintext':
         effective = 'plaintext'
